@@ -863,6 +863,20 @@ func c17ParseOne(op string, r io.ReaderAt, sb *core.Superblock, addr uint64, arg
 			return nil, err
 		}
 		return []interface{}{}, nil
+	case "strings", "compound": // Dataset.ReadStrings / ReadCompound: ReadObjectHeader + the reader (class and call count only)
+		h, err := core.ReadObjectHeader(r, addr, sb)
+		if err != nil {
+			return nil, err
+		}
+		if op == "strings" {
+			_, err = core.ReadDatasetStrings(r, h, sb)
+		} else {
+			_, err = core.ReadDatasetCompound(r, h, sb)
+		}
+		if err != nil {
+			return nil, err
+		}
+		return []interface{}{}, nil
 	case "attrval": // ReadValue of the args[0]-th attribute (variable-length strings: one global heap collection per element)
 		h, err := core.ReadObjectHeader(r, addr, sb)
 		if err != nil {
@@ -1229,6 +1243,12 @@ func init() {
 				add("attrs", x.Address())
 				if _, err := x.Read(); err == nil {
 					add("read", x.Address())
+				}
+				if _, err := x.ReadStrings(); err == nil {
+					add("strings", x.Address())
+				}
+				if _, err := x.ReadCompound(); err == nil {
+					add("compound", x.Address())
 				}
 			case *hdf5.NamedDatatype:
 				add("ohdr", x.VerifAddress())
